@@ -1,9 +1,134 @@
-import Model.Common
-/-! Oracle handlers for C01 (stub until the property's model exists). -/
-namespace OracleC01
-open Common
+import Model.C01
+import Model.C01Spec
+/-!
+Oracle handlers for C01.
 
-def handle (_cmd : String) (_f : List String) : String × String × String :=
-  ("unknown-cmd", "-", "-")
+* `C01.get    cfg now desc key op api | ringTokens ids maxErrors err`
+  - diff : (a) the observed `ringTokens` is what `GetTokens` (loser-tree merge) yields for SOME map
+           iteration order; (b) the model's `getWith` on that token circle equals the observation.
+  - judge: the declarative `specGet` (computed from the descriptor only) against the observation:
+           fails-iff, replica set (as a set), error tolerance.
+* `C01.merge  lists | merged`  : `ring.MergeTokens` vs `loserMerge`; judge: sorted union of the inputs.
+* `C01.search tokens key | idx`: `searchToken`; judge: index of the first token > key, else 0.
+-/
+namespace OracleC01
+open Common Ring C01
+
+def parseCfg (s : String) : Option Cfg :=
+  match s.splitOn "," with
+  | [rf, za, to] => do
+    pure { rf := (← rf.toNat?), zoneAware := za == "1", hbTimeout := (← to.toInt?) }
+  | _ => none
+
+def showIds (l : List Inst) : String := if l.isEmpty then "-" else ",".intercalate (l.map (showStr ·.id))
+
+def perms : List α → List (List α)
+  | [] => [[]]
+  | x :: xs => (perms xs).flatMap fun p => (List.range (p.length + 1)).map fun k => p.take k ++ x :: p.drop k
+
+/-- is `obs` a possible result of `Desc.GetTokens()` under some map iteration order? -/
+def tokensAccepted (d : Desc) (obs : List Nat) : Bool :=
+  if getTokens d == obs then true
+  else if d.length ≤ 7 then (perms d).any (fun p => getTokens p == obs)
+  else false
+
+def opName (op : Op) : String :=
+  if op == opWrite then "W" else if op == opWriteNoExtend then "WN" else if op == opRead then "R"
+  else if op == opReporting then "Rep" else "custom"
+
+def insertS (x : String) : List String → List String
+  | [] => [x]
+  | y :: ys => if x ≤ y then x :: y :: ys else y :: insertS x ys
+def sortS (l : List String) : List String := l.foldr insertS []
+
+def keyClass (toks : List Nat) (key : Nat) : String :=
+  if toks.isEmpty then "none"
+  else if toks.contains key then "eq"
+  else if toks.contains (key + 1) then "before"
+  else if key > 0 && toks.contains (key - 1) then "after"
+  else if toks.all (· < key) then "wrap"
+  else if toks.all (· > key) then "first"
+  else "mid"
+
+def bucket (n : Nat) : String := if n ≤ 3 then toString n else if n ≤ 8 then "4-8" else "9+"
+
+def handleGet (f : List String) : String × String × String :=
+  match f with
+  | [cfgS, nowS, descS, keyS, opS, apiS, toksS, idsS, meS, errS] =>
+    match parseCfg cfgS, nowS.toInt?, parseDesc descS, keyS.toNat?, opS.toNat?, natList? toksS, meS.toNat? with
+    | some cfg, some now, some d, some key, some op, some obsToks, some obsMe =>
+      let rfCall : Int := if apiS == "get" then cfg.rf else ((apiS.drop 4).toString.toInt?).getD 0
+      -- correspondence (a): the realised token circle
+      let tokOk := tokensAccepted d obsToks
+      -- correspondence (b): the model on the realised token circle
+      let (mIds, mMe, mErr) := match getWith cfg d obsToks key op now rfCall with
+        | .ok r => (showIds r.instances, r.maxErrors, "ok")
+        | .error e => ("-", 0, e.name)
+      let diffs := (if tokOk then [] else ["ringTokens-not-a-GetTokens-result:model=" ++ showNatList (getTokens d)]) ++
+        (if mIds == idsS && mMe == obsMe && mErr == errS then [] else [s!"model={mIds}|{mMe}|{mErr}"])
+      let diff := if diffs.isEmpty then "-" else " ".intercalate diffs
+      -- judge: property statement on the implementation's own observation
+      let effective := decide (rfCall ≤ cfg.rf)
+      let spec := specGet cfg op d key now
+      let obsOk := errS == "ok"
+      let obsIds := if idsS == "-" then [] else idsS.splitOn ","
+      let j : List String :=
+        if !effective then []
+        else if errS == "panic" || errS == "inconsistentTokens" || errS.startsWith "other" then ["unexpected-failure-" ++ errS]
+        else if obsOk && !spec.ok then ["succeeds-without-healthy-majority"]
+        else if !obsOk && spec.ok then ["fails-although-majority-healthy"]
+        else if !obsOk then []
+        else
+          (if sortS obsIds == sortS (spec.instances.map (showStr ·.id)) then [] else ["replica-set-differs"]) ++
+          (if obsMe == spec.maxErrors then [] else ["error-tolerance-differs"])
+      let judge := if j.isEmpty then "-" else ",".intercalate j
+      let w := specWalked cfg op d key
+      let nExt := (w.filter (fun i => extendsOn op i.state)).length
+      let nUnh := (w.filter (fun i => !isHealthy op cfg.hbTimeout now i)).length
+      let all := sortedTokens d
+      let tags := s!"get za={cfg.zoneAware} rf={cfg.rf} op={opName op} n={bucket d.length} res={errS} " ++
+        s!"ext={min nExt 2} unh={min nUnh 2} key={keyClass all key} maxtok={all.contains maxToken} " ++
+        s!"tokenless={d.any (·.tokens.isEmpty)} dropped={obsToks != all} api={(apiS.take 3).toString}"
+      (diff, judge, tags)
+    | _, _, _, _, _, _, _ => ("bad-input", "-", "-")
+  | _ => ("bad-fields", "-", "-")
+
+def parseLists (s : String) : Option (List (List Nat)) :=
+  if s == "" then some [] else (s.splitOn ";").mapM natList?
+
+def handleMerge (f : List String) : String × String × String :=
+  match f with
+  | [listsS, obsS] =>
+    match parseLists listsS, natList? obsS with
+    | some lists, some obs =>
+      let m := loserMerge lists
+      let diff := if m == obs then "-" else "model=" ++ showNatList m
+      let want := sortNat lists.flatten
+      let judge := if obs == want then "-" else "token-circle-not-sorted-union"
+      let hasMaxHead := lists.any (fun l => l.head? == some maxToken)
+      (diff, judge, s!"merge lists={bucket lists.length} empty={lists.any List.isEmpty} maxhead={hasMaxHead} max={lists.flatten.contains maxToken} dropped={obs != want}")
+    | _, _ => ("bad-input", "-", "-")
+  | _ => ("bad-fields", "-", "-")
+
+def handleSearch (f : List String) : String × String × String :=
+  match f with
+  | [toksS, keyS, obsS] =>
+    match natList? toksS, keyS.toNat?, obsS.toNat? with
+    | some toks, some key, some obs =>
+      let m := searchToken toks key
+      let diff := if m == obs then "-" else s!"model={m}"
+      let want := match toks.findIdx? (fun t => decide (key < t)) with
+        | some j => j
+        | none => 0
+      let judge := if obs == want then "-" else "not-first-token-greater-than-key"
+      (diff, judge, s!"search len={bucket toks.length} key={keyClass toks key}")
+    | _, _, _ => ("bad-input", "-", "-")
+  | _ => ("bad-fields", "-", "-")
+
+def handle (cmd : String) (f : List String) : String × String × String :=
+  if cmd == "C01.get" then handleGet f
+  else if cmd == "C01.merge" then handleMerge f
+  else if cmd == "C01.search" then handleSearch f
+  else ("unknown-cmd", "-", "-")
 
 end OracleC01
